@@ -210,7 +210,12 @@ impl Machine {
     pub fn begin_block(&mut self) {
         self.block += 1;
     }
-    fn push(&mut self, v: u64) {
+    /// A stack access inside a block that declares `nostack` is a fault: the compiler may have placed data
+    /// in the red zone below RSP, which the push overwrites.
+    fn push(&mut self, v: u64, o: u8) {
+        if o & OPT_NOSTACK != 0 {
+            self.stack_fault = true;
+        }
         if self.sp < N_STACK {
             self.stack[self.sp] = v;
             self.sp += 1;
@@ -218,7 +223,10 @@ impl Machine {
             self.stack_fault = true;
         }
     }
-    fn pop(&mut self) -> u64 {
+    fn pop(&mut self, o: u8) -> u64 {
+        if o & OPT_NOSTACK != 0 {
+            self.stack_fault = true;
+        }
         if self.sp > 0 {
             self.sp -= 1;
             self.stack[self.sp]
@@ -352,12 +360,47 @@ impl Machine {
     }
     /// `push sel; lea tmp,[55f+rip]; push tmp; retfq; 55:` -- RETFQ pops RIP then CS (SDM vol.2B RET far)
     pub fn far_return_sequence(&mut self, sel: u64, o: u8) {
-        self.push(sel);
-        self.push(LABEL_55);
-        let target = self.pop();
-        let cs = self.pop();
+        self.op_push(sel, o);
+        self.op_push(LABEL_55, o);
+        self.op_retfq(true, o);
+    }
+    // ---- stack micro-operations (used by the composite sequences above/below and by the generic lifter)
+    pub fn op_push(&mut self, v: u64, o: u8) {
+        self.push(v, o);
+    }
+    pub fn op_pop(&mut self, o: u8) -> u64 {
+        self.pop(o)
+    }
+    pub fn op_pushfq(&mut self, o: u8) {
+        let f = self.rflags;
+        self.push(f, o);
+        self.ev(EV_PUSHFQ, f, 0, 0, o);
+    }
+    /// POPFQ at CPL 0: every writable flag is written
+    pub fn op_popfq(&mut self, o: u8) {
+        let f = self.pop(o);
+        self.rflags = f;
+        self.ev(EV_POPFQ, f, 0, 0, o);
+    }
+    /// RETFQ pops RIP then CS; `lands_on_next`: the popped RIP is checked by the harness against the label that
+    /// directly follows the instruction (anything else leaves the block)
+    pub fn op_retfq(&mut self, lands_on_next: bool, o: u8) {
+        let target = self.pop(o);
+        let cs = self.pop(o);
         self.seg[CS] = cs as u16;
-        self.ev(EV_RETFQ, cs & 0xffff, target, 0, o);
+        self.ev(EV_RETFQ, cs & 0xffff, if lands_on_next { target } else { !0 }, 0, o);
+    }
+    /// IRETQ pops RIP, CS, RFLAGS, RSP, SS
+    pub fn op_iretq(&mut self, o: u8) {
+        let f = [self.pop(o), self.pop(o), self.pop(o), self.pop(o), self.pop(o)];
+        self.iret_frame = f;
+        self.iret_done = true;
+        self.ev(EV_IRETQ, f[0], f[1], f[2], o);
+        if self.iret_expect_on {
+            // the code segment / stack segment operands are 16-bit selectors zero-extended by `push r64`
+            crate::verif_oracle::vp!(C13, f == self.iret_expect, "iretq did not pop exactly the frame's RIP, CS, RFLAGS, RSP, SS");
+            crate::verif_oracle::vp!(C13, self.sp == 0 && !self.stack_fault, "iretq sequence left the stack unbalanced");
+        }
     }
     pub fn ltr(&mut self, sel: u16, o: u8) {
         self.tr = sel;
@@ -449,17 +492,13 @@ impl Machine {
     }
     /// `pushfq; pop r`
     pub fn pushfq_pop(&mut self, o: u8) -> u64 {
-        let f = self.rflags;
-        self.push(f);
-        self.ev(EV_PUSHFQ, f, 0, 0, o);
-        self.pop()
+        self.op_pushfq(o);
+        self.op_pop(o)
     }
-    /// `push r; popfq` (CPL 0: every writable flag is written; bit 1 reads as 1)
+    /// `push r; popfq`
     pub fn push_popfq(&mut self, v: u64, o: u8) {
-        self.push(v);
-        let f = self.pop();
-        self.rflags = f;
-        self.ev(EV_POPFQ, f, 0, 0, o);
+        self.op_push(v, o);
+        self.op_popfq(o);
     }
     pub fn stmxcsr(&mut self, addr: u64, o: u8) {
         unsafe { core::ptr::write_unaligned(addr as *mut u32, self.mxcsr) };
@@ -469,22 +508,14 @@ impl Machine {
         self.mxcsr = unsafe { core::ptr::read_unaligned(addr as *const u32) };
         self.ev(EV_LDMXCSR, addr, self.mxcsr as u64, 0, o);
     }
-    /// `push ss; push rsp; push rflags; push cs; push rip; iretq`: IRETQ pops RIP, CS, RFLAGS, RSP, SS
+    /// `push ss; push rsp; push rflags; push cs; push rip; iretq`
     pub fn push5_iretq(&mut self, ss: u64, rsp: u64, rflags: u64, cs: u64, rip: u64, o: u8) {
-        self.push(ss);
-        self.push(rsp);
-        self.push(rflags);
-        self.push(cs);
-        self.push(rip);
-        let f = [self.pop(), self.pop(), self.pop(), self.pop(), self.pop()];
-        self.iret_frame = f;
-        self.iret_done = true;
-        self.ev(EV_IRETQ, f[0], f[1], f[2], o);
-        if self.iret_expect_on {
-            // the code segment / stack segment operands are 16-bit selectors zero-extended by `push r64`
-            crate::verif_oracle::vp!(C13, f == self.iret_expect, "iretq did not pop exactly the frame's RIP, CS, RFLAGS, RSP, SS");
-            crate::verif_oracle::vp!(C13, self.sp == 0 && !self.stack_fault, "iretq sequence left the stack unbalanced");
-        }
+        self.op_push(ss, o);
+        self.op_push(rsp, o);
+        self.op_push(rflags, o);
+        self.op_push(cs, o);
+        self.op_push(rip, o);
+        self.op_iretq(o);
     }
 }
 
@@ -692,18 +723,8 @@ macro_rules! asm {
         });
         $crate::verif_isa::diverge()
     }};
-    // ------------------------------------------------ generic fallback: one template (possibly an opaque macro fragment)
-    ($tpl:tt, $($ops:tt)*) => {{
-        const __T: &str = $tpl;
-        const __P: $crate::verif_isa::GProg = $crate::verif_isa::parse_template(__T);
-        let __m = $crate::verif_isa::m();
-        __m.begin_block();
-        let mut __r = $crate::verif_isa::GRegs::new();
-        #[allow(unused_assignments, unused_mut)]
-        let mut __o: u8 = 0;
-        $crate::verif_isa::__asm_generic!(@ops __P __r __o [] $($ops)*);
-    }};
-    ($($t:tt)*) => { compile_error!(concat!("verif_isa: unliftable asm block: ", stringify!($($t)*))) };
+    // ------------------------------------------------ generic fallback: any other block is parsed and interpreted
+    ($($all:tt)*) => { $crate::verif_isa::__asm_generic!(@tpl [] $($all)* ,) };
 }
 pub(crate) use asm;
 
@@ -739,20 +760,24 @@ pub fn declare_msr(slot: usize, index: u32) {
 }
 
 // ======================================================================================================
-// Generic fallback lifter: a template that no arm of `asm!` matches textually (e.g. because a refactor
-// passes it through a `$t:literal` macro fragment, which is opaque to nested matchers) is parsed by a
-// `const fn` at compile time and interpreted on a small register file.  Supported: one-template blocks made
-// of `in`, `out`, `mov` (control / debug / segment registers), `rdmsr`, `wrmsr`, `invlpg`, `cli`, `sti`, `hlt`,
-// `nop`, with `{}` / `{N}` / `{N:x}` / `[{N}]` placeholders and explicit registers.  Anything else is a compile
-// error of the overlay (inconclusive).
+// Generic fallback lifter: a block that no arm of `asm!` matches textually (named or explicitly numbered
+// operands, a template split into several strings, operands in a different order, a template passed through a
+// `$t:literal` macro fragment, a changed instruction ...) is parsed by a `const fn` at compile time and
+// interpreted instruction by instruction on a small register file (rax/rcx/rdx + the block's operands) and the
+// machine's stack.  Supported mnemonics: everything the table above knows.  Anything else is a compile error of
+// the overlay (= inconclusive, never a verdict).
 // ======================================================================================================
 #[derive(Clone, Copy, PartialEq, Eq)]
-pub enum GOp { None, In, Out, Mov, Rdmsr, Wrmsr, Invlpg, Cli, Sti, Hlt, Nop }
+pub enum GOp {
+    None, In, Out, Mov, Rdmsr, Wrmsr, Xgetbv, Xsetbv, RdBase, WrBase, Swapgs, Lgdt, Lidt, Sgdt, Sidt, Ltr, Invlpg, Invpcid,
+    Invlpgb, Tlbsync, Cli, Sti, Hlt, Nop, XchgBx, Int3, Int, LeaRip, LeaLabel, Label, Pushfq, Popfq, Push, Pop, Retfq, Iretq,
+    Stmxcsr, Ldmxcsr,
+}
 /// operand of a generic instruction
 #[derive(Clone, Copy, PartialEq, Eq)]
 pub enum GArg {
     None,
-    /// positional asm operand N (register class `reg`), optionally dereferenced `[ {N} ]`
+    /// asm operand number N (register class `reg`), optionally dereferenced `[ {N} ]`
     Pos(u8, bool),
     /// architectural register: (family, number, width in bits); family 0 = GPR a/c/d (number 0/1/2),
     /// 1 = control, 2 = debug, 3 = segment
@@ -760,8 +785,10 @@ pub enum GArg {
 }
 #[derive(Clone, Copy)]
 pub struct GInsn { pub op: GOp, pub a: GArg, pub b: GArg }
+pub const G_MAX_INSN: usize = 8;
+pub const G_MAX_POS: usize = 6;
 #[derive(Clone, Copy)]
-pub struct GProg { pub n: usize, pub insn: [GInsn; 4] }
+pub struct GProg { pub n: usize, pub insn: [GInsn; G_MAX_INSN] }
 
 const fn is_ws(c: u8) -> bool { c == b' ' || c == b'\t' }
 const fn eq(t: &[u8], lo: usize, hi: usize, w: &[u8]) -> bool {
@@ -775,12 +802,15 @@ const fn parse_reg(t: &[u8], lo: usize, hi: usize) -> GArg {
     if eq(t, lo, hi, b"ax") { return GArg::Reg(0, 0, 16); }
     if eq(t, lo, hi, b"eax") { return GArg::Reg(0, 0, 32); }
     if eq(t, lo, hi, b"rax") { return GArg::Reg(0, 0, 64); }
+    if eq(t, lo, hi, b"cl") { return GArg::Reg(0, 1, 8); }
+    if eq(t, lo, hi, b"cx") { return GArg::Reg(0, 1, 16); }
     if eq(t, lo, hi, b"ecx") { return GArg::Reg(0, 1, 32); }
     if eq(t, lo, hi, b"rcx") { return GArg::Reg(0, 1, 64); }
+    if eq(t, lo, hi, b"dl") { return GArg::Reg(0, 2, 8); }
     if eq(t, lo, hi, b"dx") { return GArg::Reg(0, 2, 16); }
     if eq(t, lo, hi, b"edx") { return GArg::Reg(0, 2, 32); }
     if eq(t, lo, hi, b"rdx") { return GArg::Reg(0, 2, 64); }
-    if hi - lo == 3 && t[lo] == b'c' && t[lo + 1] == b'r' && t[lo + 2] >= b'0' && t[lo + 2] <= b'4' { return GArg::Reg(1, t[lo + 2] - b'0', 64); }
+    if hi - lo == 3 && t[lo] == b'c' && t[lo + 1] == b'r' && t[lo + 2] >= b'0' && t[lo + 2] <= b'4' && t[lo + 2] != b'1' { return GArg::Reg(1, t[lo + 2] - b'0', 64); }
     if hi - lo == 3 && t[lo] == b'd' && t[lo + 1] == b'r' && t[lo + 2] >= b'0' && t[lo + 2] <= b'7' { return GArg::Reg(2, t[lo + 2] - b'0', 64); }
     if hi - lo == 2 && t[lo + 1] == b's' {
         let n = match t[lo] { b'e' => 0, b'c' => 1, b's' => 2, b'd' => 3, b'f' => 4, b'g' => 5, _ => 9 };
@@ -788,8 +818,9 @@ const fn parse_reg(t: &[u8], lo: usize, hi: usize) -> GArg {
     }
     panic!("verif_isa: generic lifter: unknown register")
 }
-/// one operand token t[lo..hi] (already trimmed); `next_pos` numbers the `{}` placeholders
-const fn parse_arg(t: &[u8], lo: usize, hi: usize, next_pos: &mut u8) -> GArg {
+/// one operand token t[lo..hi] (already trimmed); `next_pos` numbers the `{}` placeholders, `names` are the
+/// operand names in declaration order ("" for unnamed operands)
+const fn parse_arg(t: &[u8], lo: usize, hi: usize, names: &[&str], next_pos: &mut u8) -> GArg {
     let (mut lo, mut hi, mut mem) = (lo, hi, false);
     if t[lo] == b'[' && t[hi - 1] == b']' {
         mem = true;
@@ -799,25 +830,34 @@ const fn parse_arg(t: &[u8], lo: usize, hi: usize, next_pos: &mut u8) -> GArg {
         while hi > lo && is_ws(t[hi - 1]) { hi -= 1; }
     }
     if t[lo] == b'{' && t[hi - 1] == b'}' {
-        // {} | {N} | {N:x} | {:x}
-        let mut i = lo + 1;
-        if t[i] >= b'0' && t[i] <= b'9' {
-            return GArg::Pos(t[i] - b'0', mem);
+        // {} | {N} | {name} , each optionally with a `:modifier` (register width as printed; the operand's value
+        // is the same)
+        let s = lo + 1;
+        let mut e = s;
+        while e < hi - 1 && t[e] != b':' { e += 1; }
+        if e == s {
+            let p = *next_pos;
+            *next_pos += 1;
+            return GArg::Pos(p, mem);
         }
-        let _ = i;
-        i = 0;
-        let _ = i;
-        let p = *next_pos;
-        *next_pos += 1;
-        return GArg::Pos(p, mem);
+        if t[s] >= b'0' && t[s] <= b'9' {
+            if e - s != 1 { panic!("verif_isa: generic lifter: operand number too large") }
+            return GArg::Pos(t[s] - b'0', mem);
+        }
+        let mut k = 0;
+        while k < names.len() {
+            if eq(t, s, e, names[k].as_bytes()) { return GArg::Pos(k as u8, mem); }
+            k += 1;
+        }
+        panic!("verif_isa: generic lifter: unknown operand name in template")
     }
     if mem { panic!("verif_isa: generic lifter: memory operand must be a placeholder") }
     parse_reg(t, lo, hi)
 }
-pub const fn parse_template(tpl: &str) -> GProg {
+pub const fn parse_template(tpl: &str, names: &[&str]) -> GProg {
     let t = tpl.as_bytes();
     let none = GInsn { op: GOp::None, a: GArg::None, b: GArg::None };
-    let mut p = GProg { n: 0, insn: [none; 4] };
+    let mut p = GProg { n: 0, insn: [none; G_MAX_INSN] };
     let mut next_pos: u8 = 0;
     let mut i = 0;
     while i < t.len() {
@@ -830,14 +870,49 @@ pub const fn parse_template(tpl: &str) -> GProg {
         if lo < hi {
             let mut me = lo;
             while me < hi && !is_ws(t[me]) { me += 1; }
-            let op = if eq(t, lo, me, b"in") { GOp::In } else if eq(t, lo, me, b"out") { GOp::Out } else if eq(t, lo, me, b"mov") { GOp::Mov }
-                else if eq(t, lo, me, b"rdmsr") { GOp::Rdmsr } else if eq(t, lo, me, b"wrmsr") { GOp::Wrmsr } else if eq(t, lo, me, b"invlpg") { GOp::Invlpg }
-                else if eq(t, lo, me, b"cli") { GOp::Cli } else if eq(t, lo, me, b"sti") { GOp::Sti } else if eq(t, lo, me, b"hlt") { GOp::Hlt }
-                else if eq(t, lo, me, b"nop") { GOp::Nop } else { panic!("verif_isa: generic lifter: unsupported mnemonic") };
-            let (mut a, mut b) = (GArg::None, GArg::None);
+            // operand text
             let mut s = me;
             while s < hi && is_ws(t[s]) { s += 1; }
-            if s < hi {
+            let (mut a, mut b) = (GArg::None, GArg::None);
+            let mut parse_ops = true;
+            let op = if t[hi - 1] == b':' && me == hi { parse_ops = false; GOp::Label }
+                else if eq(t, lo, me, b"in") { GOp::In } else if eq(t, lo, me, b"out") { GOp::Out } else if eq(t, lo, me, b"mov") { GOp::Mov }
+                else if eq(t, lo, me, b"rdmsr") { GOp::Rdmsr } else if eq(t, lo, me, b"wrmsr") { GOp::Wrmsr }
+                else if eq(t, lo, me, b"xgetbv") { GOp::Xgetbv } else if eq(t, lo, me, b"xsetbv") { GOp::Xsetbv }
+                else if eq(t, lo, me, b"rdfsbase") { b = GArg::Reg(3, 4, 16); GOp::RdBase } else if eq(t, lo, me, b"rdgsbase") { b = GArg::Reg(3, 5, 16); GOp::RdBase }
+                else if eq(t, lo, me, b"wrfsbase") { b = GArg::Reg(3, 4, 16); GOp::WrBase } else if eq(t, lo, me, b"wrgsbase") { b = GArg::Reg(3, 5, 16); GOp::WrBase }
+                else if eq(t, lo, me, b"swapgs") { GOp::Swapgs }
+                else if eq(t, lo, me, b"lgdt") { GOp::Lgdt } else if eq(t, lo, me, b"lidt") { GOp::Lidt }
+                else if eq(t, lo, me, b"sgdt") { GOp::Sgdt } else if eq(t, lo, me, b"sidt") { GOp::Sidt } else if eq(t, lo, me, b"ltr") { GOp::Ltr }
+                else if eq(t, lo, me, b"invlpg") { GOp::Invlpg } else if eq(t, lo, me, b"invpcid") { GOp::Invpcid }
+                else if eq(t, lo, me, b"invlpgb") { GOp::Invlpgb } else if eq(t, lo, me, b"tlbsync") { GOp::Tlbsync }
+                else if eq(t, lo, me, b"cli") { GOp::Cli } else if eq(t, lo, me, b"sti") { GOp::Sti } else if eq(t, lo, me, b"hlt") { GOp::Hlt }
+                else if eq(t, lo, me, b"nop") { GOp::Nop } else if eq(t, lo, me, b"int3") { GOp::Int3 } else if eq(t, lo, me, b"int") { GOp::Int }
+                else if eq(t, lo, me, b"pushfq") { GOp::Pushfq } else if eq(t, lo, me, b"popfq") { GOp::Popfq }
+                else if eq(t, lo, me, b"push") { GOp::Push } else if eq(t, lo, me, b"pop") { GOp::Pop }
+                else if eq(t, lo, me, b"retfq") { GOp::Retfq } else if eq(t, lo, me, b"iretq") { GOp::Iretq }
+                else if eq(t, lo, me, b"stmxcsr") { GOp::Stmxcsr } else if eq(t, lo, me, b"ldmxcsr") { GOp::Ldmxcsr }
+                else if eq(t, lo, me, b"xchg") {
+                    if !eq(t, s, hi, b"bx, bx") { panic!("verif_isa: generic lifter: only `xchg bx, bx` is supported") }
+                    parse_ops = false;
+                    GOp::XchgBx
+                } else if eq(t, lo, me, b"lea") {
+                    // lea X, [rip]  |  lea X, [<digits>f + rip]
+                    let mut c = s;
+                    while c < hi && t[c] != b',' { c += 1; }
+                    if c >= hi { panic!("verif_isa: generic lifter: lea needs two operands") }
+                    let mut ahi = c;
+                    while ahi > s && is_ws(t[ahi - 1]) { ahi -= 1; }
+                    a = parse_arg(t, s, ahi, names, &mut next_pos);
+                    let mut blo = c + 1;
+                    while blo < hi && is_ws(t[blo]) { blo += 1; }
+                    parse_ops = false;
+                    if eq(t, blo, hi, b"[rip]") { GOp::LeaRip }
+                    else if hi - blo >= 9 && t[blo] == b'[' && t[blo + 1] >= b'0' && t[blo + 1] <= b'9' && eq(t, hi - 7, hi, b" + rip]") && (t[hi - 8] == b'f') { GOp::LeaLabel }
+                    else { panic!("verif_isa: generic lifter: unsupported lea source") }
+                }
+                else { panic!("verif_isa: generic lifter: unsupported mnemonic") };
+            if parse_ops && s < hi {
                 // split at the top-level comma
                 let mut c = s;
                 let mut depth = 0;
@@ -848,14 +923,14 @@ pub const fn parse_template(tpl: &str) -> GProg {
                 }
                 let mut ahi = c;
                 while ahi > s && is_ws(t[ahi - 1]) { ahi -= 1; }
-                a = parse_arg(t, s, ahi, &mut next_pos);
+                a = parse_arg(t, s, ahi, names, &mut next_pos);
                 if c < hi {
                     let mut blo = c + 1;
                     while blo < hi && is_ws(t[blo]) { blo += 1; }
-                    b = parse_arg(t, blo, hi, &mut next_pos);
+                    b = parse_arg(t, blo, hi, names, &mut next_pos);
                 }
             }
-            if p.n >= 4 { panic!("verif_isa: generic lifter: block too long") }
+            if p.n >= G_MAX_INSN { panic!("verif_isa: generic lifter: block too long") }
             p.insn[p.n] = GInsn { op, a, b };
             p.n += 1;
         }
@@ -864,19 +939,20 @@ pub const fn parse_template(tpl: &str) -> GProg {
     if p.n == 0 { panic!("verif_isa: generic lifter: empty template") }
     p
 }
-/// register class written in the operand: `reg` or `"eax"`-style explicit register (with the quotes)
+/// register class written in the operand: `reg` (and its sub-classes) or `"eax"`-style explicit register (with the quotes)
 pub const fn class_reg(cls: &str) -> GArg {
     let t = cls.as_bytes();
-    if eq(t, 0, t.len(), b"reg") { return GArg::Pos(0xff, false); }
+    if eq(t, 0, t.len(), b"reg") || eq(t, 0, t.len(), b"reg_abcd") || eq(t, 0, t.len(), b"reg_byte") { return GArg::Pos(0xff, false); }
     if t.len() >= 2 && t[0] == b'"' { return parse_reg(t, 1, t.len() - 1); }
     panic!("verif_isa: generic lifter: unsupported register class")
 }
 
 /// register file of one generic block
-pub struct GRegs { pub gpr: [u64; 3], pub pos: [u64; 4], pub npos: usize }
+pub struct GRegs { pub gpr: [u64; 3], pub pos: [u64; G_MAX_POS], pub npos: usize }
 impl GRegs {
-    pub fn new() -> Self { GRegs { gpr: [0; 3], pos: [0; 4], npos: 0 } }
-    /// bind an input operand; returns the positional index it occupies (if any)
+    pub fn new() -> Self { GRegs { gpr: [0; 3], pos: [0; G_MAX_POS], npos: 0 } }
+    /// bind an input operand (operands are numbered in declaration order; explicit registers come last and are
+    /// never referenced by number)
     pub fn bind_in(&mut self, cls: GArg, v: u64) {
         match cls {
             GArg::Pos(_, _) => { self.pos[self.npos] = v; self.npos += 1; }
@@ -902,7 +978,8 @@ impl GRegs {
         match a {
             GArg::Pos(n, _) => self.pos[n as usize] = v,
             // x86-64: a 32-bit write zero-extends, 8/16-bit writes leave the upper bits
-            GArg::Reg(0, n, 64) | GArg::Reg(0, n, 32) => self.gpr[n as usize] = mask(v, 32.max(if let GArg::Reg(_, _, w) = a { w } else { 64 })),
+            GArg::Reg(0, n, 64) => self.gpr[n as usize] = v,
+            GArg::Reg(0, n, 32) => self.gpr[n as usize] = v & 0xffff_ffff,
             GArg::Reg(0, n, w) => { let m = (1u64 << w) - 1; self.gpr[n as usize] = (self.gpr[n as usize] & !m) | (v & m); }
             _ => {}
         }
@@ -912,6 +989,7 @@ fn mask(v: u64, w: u8) -> u64 { if w >= 64 { v } else { v & ((1u64 << w) - 1) } 
 
 pub fn exec_generic(p: &GProg, r: &mut GRegs, o: u8) {
     let mm = m();
+    let sp0 = mm.sp;
     let mut i = 0;
     while i < p.n {
         let GInsn { op, a, b } = p.insn[i];
@@ -943,20 +1021,87 @@ pub fn exec_generic(p: &GProg, r: &mut GRegs, o: u8) {
                 r.gpr[2] = hi as u64;
             }
             GOp::Wrmsr => mm.wrmsr(r.gpr[1] as u32, r.gpr[0] as u32, r.gpr[2] as u32, o),
+            GOp::Xgetbv => {
+                let (lo, hi) = mm.xgetbv(r.gpr[1] as u32, o);
+                r.gpr[0] = lo;
+                r.gpr[2] = hi;
+            }
+            GOp::Xsetbv => mm.xsetbv(r.gpr[1] as u32, r.gpr[0], r.gpr[2], o),
+            GOp::RdBase => { let s = match b { GArg::Reg(3, n, _) => n as usize, _ => FS }; let v = mm.rdbase(s, o); r.write(a, v); }
+            GOp::WrBase => { let s = match b { GArg::Reg(3, n, _) => n as usize, _ => FS }; mm.wrbase(s, r.read(a), o); }
+            GOp::Swapgs => mm.swapgs(o),
+            GOp::Lgdt => mm.lgdt(r.read(a), o),
+            GOp::Lidt => mm.lidt(r.read(a), o),
+            GOp::Sgdt => mm.sgdt(r.read(a), o),
+            GOp::Sidt => mm.sidt(r.read(a), o),
+            GOp::Ltr => mm.ltr(r.read(a) as u16, o),
             GOp::Invlpg => mm.invlpg(r.read(a), o),
+            GOp::Invpcid => mm.invpcid(r.read(a), r.read(b), o),
+            GOp::Invlpgb => mm.invlpgb(r.gpr[0], r.gpr[1] as u32, r.gpr[2] as u32, o),
+            GOp::Tlbsync => mm.tlbsync(o),
             GOp::Cli => mm.cli(o),
             GOp::Sti => mm.sti(o),
             GOp::Hlt => mm.hlt(o),
             GOp::Nop => mm.nop(o),
+            GOp::XchgBx => mm.xchg_bx_bx(o),
+            GOp::Int3 => mm.int3(o),
+            GOp::Int => mm.int_n(r.read(a), o),
+            GOp::LeaRip => { let v = mm.lea_rip(o); r.write(a, v); }
+            GOp::LeaLabel => r.write(a, LABEL_55),
+            GOp::Label => {}
+            GOp::Pushfq => mm.op_pushfq(o),
+            GOp::Popfq => mm.op_popfq(o),
+            GOp::Push => mm.op_push(r.read(a), o),
+            GOp::Pop => { let v = mm.op_pop(o); r.write(a, v); }
+            GOp::Retfq => { let lands = i + 1 < p.n && matches!(p.insn[i + 1].op, GOp::Label); mm.op_retfq(lands, o); }
+            GOp::Iretq => mm.op_iretq(o),
+            GOp::Stmxcsr => mm.stmxcsr(r.read(a), o),
+            GOp::Ldmxcsr => mm.ldmxcsr(r.read(a), o),
             GOp::None => {}
         }
         i += 1;
     }
+    if o & OPT_NORETURN == 0 && mm.sp != sp0 {
+        mm.stack_fault = true; // the block returns with a different stack pointer
+    }
 }
 
-/// operand muncher of the fallback: binds inputs, runs the program, reads outputs back
+/// `noreturn` blocks have type `!`
+macro_rules! __maybe_diverge {
+    () => { () };
+    (noreturn $($r:tt)*) => { $crate::verif_isa::diverge() };
+    ($x:tt $($r:tt)*) => { $crate::verif_isa::__maybe_diverge!($($r)*) };
+}
+pub(crate) use __maybe_diverge;
+
+/// The fallback: @tpl collects the template strings, @names the operand names (for `{name}` placeholders), @ops
+/// binds inputs, runs the program and reads the outputs back.
 macro_rules! __asm_generic {
-    // done: no more operands
+    // ---- template strings (joined by newlines, as the assembler sees them)
+    (@tpl [$($t:tt)*] $l:literal, $($rest:tt)*) => { $crate::verif_isa::__asm_generic!(@tpl [$($t)* $l, "\n",] $($rest)*) };
+    (@tpl [$($t:tt)*] concat!($($c:tt)*), $($rest:tt)*) => { $crate::verif_isa::__asm_generic!(@tpl [$($t)* concat!($($c)*), "\n",] $($rest)*) };
+    (@tpl [$($t:tt)+] $($ops:tt)*) => { $crate::verif_isa::__asm_generic!(@names [$($t)+] [] [$($ops)*] $($ops)*) };
+    // ---- operand names in declaration order
+    (@names $t:tt [$($n:tt)*] $all:tt $name:ident = const $e:expr, $($rest:tt)*) => { $crate::verif_isa::__asm_generic!(@names $t [$($n)* stringify!($name),] $all $($rest)*) };
+    (@names $t:tt [$($n:tt)*] $all:tt $name:ident = $k:ident($c:tt) _, $($rest:tt)*) => { $crate::verif_isa::__asm_generic!(@names $t [$($n)* stringify!($name),] $all $($rest)*) };
+    (@names $t:tt [$($n:tt)*] $all:tt $name:ident = $k:ident($c:tt) $e:expr, $($rest:tt)*) => { $crate::verif_isa::__asm_generic!(@names $t [$($n)* stringify!($name),] $all $($rest)*) };
+    (@names $t:tt [$($n:tt)*] $all:tt const $e:expr, $($rest:tt)*) => { $crate::verif_isa::__asm_generic!(@names $t [$($n)* "",] $all $($rest)*) };
+    (@names $t:tt [$($n:tt)*] $all:tt options($($o:tt)*) $(,)*) => { $crate::verif_isa::__asm_generic!(@go $t [$($n)*] $all) };
+    (@names $t:tt [$($n:tt)*] $all:tt $k:ident($c:tt) _, $($rest:tt)*) => { $crate::verif_isa::__asm_generic!(@names $t [$($n)* "",] $all $($rest)*) };
+    (@names $t:tt [$($n:tt)*] $all:tt $k:ident($c:tt) $e:expr, $($rest:tt)*) => { $crate::verif_isa::__asm_generic!(@names $t [$($n)* "",] $all $($rest)*) };
+    (@names $t:tt [$($n:tt)*] $all:tt $(,)*) => { $crate::verif_isa::__asm_generic!(@go $t [$($n)*] $all) };
+    (@go [$($t:tt)+] [$($n:tt)*] [$($ops:tt)*]) => {{
+        const __T: &str = concat!($($t)+);
+        const __N: &[&str] = &[$($n)*];
+        const __P: $crate::verif_isa::GProg = $crate::verif_isa::parse_template(__T, __N);
+        let __m = $crate::verif_isa::m();
+        __m.begin_block();
+        let mut __r = $crate::verif_isa::GRegs::new();
+        #[allow(unused_assignments, unused_mut)]
+        let mut __o: u8 = 0;
+        $crate::verif_isa::__asm_generic!(@ops __P __r __o [] $($ops)*)
+    }};
+    // ---- run + outputs
     (@run $p:ident $r:ident $o:ident [$($outs:tt)*]) => {{
         $crate::verif_isa::exec_generic(&$p, &mut $r, $o);
         $crate::verif_isa::__asm_generic!(@outs $r [$($outs)*]);
@@ -966,25 +1111,39 @@ macro_rules! __asm_generic {
         $v = $crate::verif_isa::FromU64::from_u64($r.read($slot));
         $crate::verif_isa::__asm_generic!(@outs $r [$($rest)*]);
     };
-    (@ops $p:ident $r:ident $o:ident [$($outs:tt)*] options($($opt:tt)*) $(,)?) => {{
+    // ---- operands
+    (@ops $p:ident $r:ident $o:ident [$($outs:tt)*] options($($opt:tt)*) $(,)*) => {{
         $o = $crate::verif_isa::__opts!($($opt)*);
         $crate::verif_isa::__asm_generic!(@run $p $r $o [$($outs)*]);
+        $crate::verif_isa::__maybe_diverge!($($opt)*)
     }};
-    (@ops $p:ident $r:ident $o:ident [$($outs:tt)*]) => {
+    (@ops $p:ident $r:ident $o:ident [$($outs:tt)*] $(,)*) => {
         $crate::verif_isa::__asm_generic!(@run $p $r $o [$($outs)*]);
     };
+    (@ops $p:ident $r:ident $o:ident [$($outs:tt)*] $name:ident = $($rest:tt)*) => {
+        $crate::verif_isa::__asm_generic!(@ops $p $r $o [$($outs)*] $($rest)*)
+    };
+    (@ops $p:ident $r:ident $o:ident [$($outs:tt)*] const $e:expr, $($rest:tt)*) => {{
+        $r.bind_in($crate::verif_isa::GArg::Pos(0xff, false), ($e) as u64);
+        $crate::verif_isa::__asm_generic!(@ops $p $r $o [$($outs)*] $($rest)*)
+    }};
     (@ops $p:ident $r:ident $o:ident [$($outs:tt)*] in($c:tt) $e:expr, $($rest:tt)*) => {{
         const CLS: $crate::verif_isa::GArg = $crate::verif_isa::class_reg(stringify!($c));
         $r.bind_in(CLS, $crate::verif_isa::ToU64::to_u64($e));
-        $crate::verif_isa::__asm_generic!(@ops $p $r $o [$($outs)*] $($rest)*);
+        $crate::verif_isa::__asm_generic!(@ops $p $r $o [$($outs)*] $($rest)*)
+    }};
+    (@ops $p:ident $r:ident $o:ident [$($outs:tt)*] out($c:tt) _, $($rest:tt)*) => {{
+        const CLS: $crate::verif_isa::GArg = $crate::verif_isa::class_reg(stringify!($c));
+        let _ = $r.bind_out(CLS);
+        $crate::verif_isa::__asm_generic!(@ops $p $r $o [$($outs)*] $($rest)*)
     }};
     (@ops $p:ident $r:ident $o:ident [$($outs:tt)*] out($c:tt) $v:ident, $($rest:tt)*) => {{
         const CLS: $crate::verif_isa::GArg = $crate::verif_isa::class_reg(stringify!($c));
         let slot = $r.bind_out(CLS);
-        $crate::verif_isa::__asm_generic!(@ops $p $r $o [$($outs)* ($v, slot)] $($rest)*);
+        $crate::verif_isa::__asm_generic!(@ops $p $r $o [$($outs)* ($v, slot)] $($rest)*)
     }};
-    (@ops $p:ident $r:ident $o:ident [$($outs:tt)*] lateout($c:tt) $v:ident, $($rest:tt)*) => {
-        $crate::verif_isa::__asm_generic!(@ops $p $r $o [$($outs)*] out($c) $v, $($rest)*);
+    (@ops $p:ident $r:ident $o:ident [$($outs:tt)*] lateout($c:tt) $($rest:tt)*) => {
+        $crate::verif_isa::__asm_generic!(@ops $p $r $o [$($outs)*] out($c) $($rest)*)
     };
 }
 pub(crate) use __asm_generic;
